@@ -351,13 +351,22 @@ func VerifC07_ScheduledAfterQueuedRun() {
 	}
 	rt.Assert(bRunning, "schedafterqueue/slot-taken")
 	// a is scheduled for a time at which b still runs (well within the
-	// execution-wait limit of one minute)
+	// execution-wait limit of one minute) - possibly while it also waits in the
+	// queue behind b
+	alsoQueued := rt.Bool("also-queued-behind-the-running-task")
+	if alsoQueued {
+		a.Queue()
+	}
 	a.Schedule(time.Now().Add(u / 4))
 	time.Sleep(u / 2)
 	rt.Assert(aRuns == base, "schedafterqueue/scheduled-task-waits-for-the-running-one")
 	close(gate)
 	time.Sleep(u / 2)
-	rt.Assert(aRuns == base+1, "schedafterqueue/scheduled-task-runs-afterwards")
+	if alsoQueued {
+		rt.Assert(aRuns >= base+1 && aRuns <= base+2, "schedafterqueue/scheduled-and-queued-task-runs-afterwards")
+	} else {
+		rt.Assert(aRuns == base+1, "schedafterqueue/scheduled-task-runs-afterwards")
+	}
 	rt.Reach("schedafterqueue-end")
 }
 
